@@ -140,6 +140,7 @@ Section Log.
         assert (H1 : clean (out msg E w1)) by (cbn [w1 out Client.upd app]; apply clean_cons_other; [other|exact Hc]).
         assert (L1 : level msg E w1 = level msg E w) by reflexivity.
         destruct rr as [b| |]; [|apply Hclose; assumption|apply Hclose; assumption].
+        destruct (length b =? 0)%nat; [intros [= <- <- <-]; split; [exact H1|exact L1]|].
         destruct ((32 * (length (pend ++ b) / 32)) =? 0)%nat.
         * intro H. destruct (IH _ _ _ _ _ _ _ _ H1 ltac:(rewrite L1; exact HL) H) as [A B]. split; [exact A|rewrite B; exact L1].
         * destruct (dec (div s) (firstn _ (pend ++ b))) as [pt iv'] eqn:Ed.
